@@ -1373,6 +1373,7 @@ def render_abstract(A, start=datetime(2024, 1, 1), length="+1w"):
 # Meaning-preserving transformations (C14 week shifts, C15 spellings) on a Proj
 # ======================================================================================
 import copy as _copy
+import re
 
 
 def clone(p):
@@ -1562,6 +1563,29 @@ def with_macros(text, rng):
     # macro definitions go after the project header block
     idx = next(i for i, l in enumerate(out) if l.split("#")[0].strip() == "}")      # the closer may carry a trailing comment
     return "\n".join(out[:idx + 1] + macros + out[idx + 1:]) + "\n"
+
+
+def with_macro_mentions(text, rng):
+    """Comments that talk about the macros of a text that has some (and about the project header): a comment is a comment,
+    whatever it quotes -- a definition, a call, an old header, an 'as of now' date."""
+    out = []
+    names = re.findall(r"^macro (\w+) \[", text, re.M)
+    head_done = False
+    for line in text.splitlines():
+        if line.startswith("project ") and not head_done:
+            head_done = True
+            if rng.random() < 0.5:
+                out.append('# copied from: project old "Old" 2019-01-07 +1m   (as of now 2019-01-08)')
+            if rng.random() < 0.3:
+                out.append("/* now 2018-05-05 */")
+        m = re.match(r"^macro (\w+) \[", line)
+        out.append(line)
+        if m and rng.random() < 0.6:
+            out.append(rng.choice(["# macro %s [ effort 999h ]", "/* macro %s [ priority 1 ] */", "// the macro %s [see above] is used below",
+                                   "   # macro %s [ allocate nobody ]"]) % m.group(1))
+        elif names and "${" in line and rng.random() < 0.4:
+            out.append("%s# was: ${%s}" % (" " * rng.randint(0, 4), rng.choice(names)))
+    return "\n".join(out) + "\n"
 
 
 # ======================================================================================
